@@ -38,7 +38,7 @@ PROPS = {
             "parts": [
                 {"name": "differential", "test": "TestC14Differential", "quick_checks": 400, "thorough_checks": 40000, "thorough_shards": 16},
                 {"name": "packages", "test": "TestC14Packages", "quick_checks": 300, "thorough_checks": 20000, "thorough_shards": 16},
-                {"name": "deployments", "test": "TestC14Deployments", "quick_checks": 400, "thorough_checks": 24000, "thorough_shards": 16},
+                {"name": "deployments", "test": "TestC14Deployments", "quick_checks": 600, "thorough_checks": 24000, "thorough_shards": 16},
                 {"name": "gc", "vehicle": "overlay", "pkg": "internal/packages/internal/packagedeploy", "test": "TestC14GC", "quick_checks": 1500, "thorough_checks": 80000, "thorough_shards": 16},
                 {"name": "collision", "vehicle": "overlay", "pkg": "internal/packages/internal/packagedeploy", "test": "TestC14Collision", "quick_checks": 200, "thorough_checks": 3200, "thorough_shards": 16},
                 {"name": "chunking", "vehicle": "overlay", "pkg": "internal/packages/internal/packagedeploy", "test": "TestC14Chunking", "quick_checks": 1200, "thorough_checks": 16000, "thorough_shards": 16},
